@@ -7,6 +7,7 @@ import z3
 
 from . import api, strops
 from .state import ExcInfo, Obligation, Place, State
+from .types import snth, sunit
 from .types import (TBool, TFun, TInt, TMap, TNone, TOpaque, TOpt, TRef, TSeq, TStr,
                     TTuple, TUnion, join, opt, parse_type)
 from .values import (NONE, SV, OutsideSubset, TBottom, TypeMismatch, box, coerce,
@@ -104,12 +105,12 @@ class ExprMixin:
     def assume_ref_closed(self, st, val):
         """Refs read from the heap denote allocated objects."""
         if isinstance(val.ty, TRef):
-            st.assume(z3.And(val.t >= 0, val.t < st.alloc))
-            self.assume_class(st, val)
+            st.fact(z3.And(val.t >= 0, val.t < st.alloc))
+            st.fact(self.isinstance_term(st, val, val.ty.cls))
         elif isinstance(val.ty, TOpt) and isinstance(val.ty.inner, TRef):
             inner = val.ty.val(val.t)
-            st.assume(z3.Or(val.ty.is_none(val.t), z3.And(inner >= 0, inner < st.alloc)))
-            st.assume(z3.Or(val.ty.is_none(val.t), self.isinstance_term(st, SV(val.ty.inner, inner), val.ty.inner.cls)))
+            st.fact(z3.Or(val.ty.is_none(val.t), z3.And(inner >= 0, inner < st.alloc)))
+            st.fact(z3.Or(val.ty.is_none(val.t), self.isinstance_term(st, SV(val.ty.inner, inner), val.ty.inner.cls)))
 
     def assume_class(self, st, ref):
         st.assume(self.isinstance_term(st, ref, ref.ty.cls))
@@ -141,6 +142,11 @@ class ExprMixin:
         self.frame_write(st, ref, (dcls, name), node)
         st.heap[(dcls, name)] = z3.Store(arr, ref.t, box(v))
         self.invalidate_places(st, ('field', ref.t, (dcls, name)), ())
+        m = api.MODELS.get(dcls)
+        if m is not None and name in m.optional:
+            flag = m.optional[name]
+            farr = self.heap_array(st, (dcls, flag), TBool)
+            st.heap[(dcls, flag)] = z3.Store(farr, ref.t, z3.BoolVal(True))
         if st.init_assigned is not None and 'self' in st.env and \
                 isinstance(st.env['self'], SV) and z3.eq(st.env['self'].t, ref.t):
             st.init_assigned.add(name)
@@ -150,17 +156,32 @@ class ExprMixin:
         if self.frame is None or self.spec_depth > 0:
             return
         allowed = [ref.t >= st.alloc0]
-        for (r, fk) in self.frame:
+        for x in self.frame:
+            r, fk = x[0], x[1]
+            if isinstance(r, str):
+                if r == 'ALL' and self.classes.is_subclass(fkey[0], x[2]) or self.classes.is_subclass(x[2], fkey[0]):
+                    if fk is None or fk == fkey[1]:
+                        allowed.append(z3.BoolVal(True))
+                continue
             if fk is None or fk == fkey or fk == fkey[1]:
                 allowed.append(ref.t == r)
         self.oblige(st, z3.Or(allowed), 'frame', '%s.%s' % (fkey[0].split('.')[-1], fkey[1]), node=node,
                     carries=self.frame_carries,
                     info={'claim': 'write to %s.%s only on an object in the modifies clause or allocated by this call' % fkey})
 
-    def new_object(self, st, cls):
+    def new_object(self, st, cls, defaults=True):
         r = SV(TRef(cls), st.alloc)
         st.alloc = st.alloc + 1
         st.heap['$cls'] = z3.Store(self.cls_array(st), r.t, z3.IntVal(self.classes.cid(cls)))
+        for q in (self.classes.mro(cls) if defaults else ()):
+            m = api.MODELS.get(q)
+            if m is None:
+                continue
+            for f, dv in m.defaults.items():
+                _, fty = self.classes.field(q, f)
+                arr = self.heap_array(st, (q, f), fty)
+                v = self.const_value(ast.literal_eval(dv))
+                st.heap[(q, f)] = z3.Store(arr, r.t, box(coerce(v, fty, self.classes)))
         return r
 
     def coerce(self, st, sv, ty):
@@ -229,7 +250,7 @@ class ExprMixin:
         if k == 'key':
             return self.map_get(v, step[1])
         if k == 'idx':
-            return unbox(v.ty.elem, strops.seq_nth(v.t, step[1].t))
+            return unbox(v.ty.elem, strops.seq_nth(v.t, step[1].t, v.ty.elem))
         if k == 'alt':
             return unbox(v.ty.alt(step[1]), v.ty.get(step[1], v.t))
         if k == 'opt':
@@ -244,7 +265,7 @@ class ExprMixin:
             i = strops.index_norm(step[1].t, z3.Length(container.t))
             e = box(coerce(newv, container.ty.elem, self.classes))
             n = z3.Length(container.t)
-            t = z3.Concat(z3.SubSeq(container.t, 0, i), z3.Unit(e),
+            t = z3.Concat(z3.SubSeq(container.t, 0, i), sunit(container.ty.elem, e),
                           z3.SubSeq(container.t, i + 1, n - i - 1))
             return SV(container.ty, t)
         if k == 'alt':
@@ -311,9 +332,19 @@ class ExprMixin:
     # ------------------------------------------------------------------
     # maps
     # ------------------------------------------------------------------
-    def map_has(self, m, k):
+    def map_has(self, m, k, st=None):
         kk = coerce(k, m.ty.k, self.classes)
-        return z3.Contains(m.ty.keys(m.t), z3.Unit(box(kk)))
+        keys = m.ty.keys(m.t)
+        u = sunit(m.ty.k, box(kk))
+        has = z3.Contains(keys, u)
+        st = st or self.cur_state
+        if st is not None:
+            # membership <-> some index holds the key (Skolemised with IndexOf): the sequence
+            # solvers do not connect `contains` with `nth` on their own
+            j = z3.IndexOf(keys, u, 0)
+            st.fact(has == (j >= 0))
+            st.fact(z3.Implies(j >= 0, z3.And(j < z3.Length(keys), snth(m.ty.k, keys, j) == box(kk))))
+        return has
 
     def map_get(self, m, k):
         kk = coerce(k, m.ty.k, self.classes)
@@ -325,7 +356,7 @@ class ExprMixin:
         kk = box(coerce(k, m.ty.k, self.classes))
         vv = box(coerce(v, m.ty.v, self.classes))
         keys = m.ty.keys(m.t)
-        nkeys = z3.If(z3.Contains(keys, z3.Unit(kk)), keys, z3.Concat(keys, z3.Unit(kk)))
+        nkeys = z3.If(z3.Contains(keys, sunit(m.ty.k, kk)), keys, z3.Concat(keys, sunit(m.ty.k, kk)))
         return SV(m.ty, m.ty.mk(nkeys, z3.Store(m.ty.vals(m.t), kk, vv)))
 
     # ------------------------------------------------------------------
@@ -382,6 +413,7 @@ class ExprMixin:
     # expression evaluation: returns list of (state, value)
     # ------------------------------------------------------------------
     def eval(self, st, e):
+        self.cur_state = st
         m = getattr(self, 'eval_' + type(e).__name__, None)
         if m is None:
             raise OutsideSubset('expression ' + type(e).__name__)
@@ -399,7 +431,8 @@ class ExprMixin:
                 for s2, v in self.eval(s, e):
                     nxt.append((s2, vals + [v]))
             outs = nxt
-        return outs
+        # non-normal outcomes carry a full-length (padded) value list so callers can unpack
+        return [(s, vals if normal(s) else vals + [None] * (len(exprs) - len(vals))) for s, vals in outs]
 
     def value(self, st, v):
         """Dereference places."""
@@ -562,17 +595,19 @@ class ExprMixin:
                 if i == len(e.values) - 1:
                     results.append((s1, v))
                     continue
-                t = z3.simplify(self.truthy(s1, v))
+                t0 = self.truthy(s1, v)
+                t = z3.simplify(t0)
                 decide = z3.Not(t) if is_and else t
+                decide0 = z3.Not(t0) if is_and else t0
                 if z3.is_true(decide):
                     results.append((s1, v))
                 elif z3.is_false(decide):
                     pending.append((s1, None, i + 1))
                 else:
                     a = s1.copy()
-                    a.assume(decide)
+                    a.assume(decide0)
                     b = s1
-                    b.assume(z3.Not(decide))
+                    b.assume(z3.Not(decide0))
                     if self.feasible(a):
                         results.append((a, self.narrow_after_truth(a, v, not is_and)))
                     if self.feasible(b):
@@ -603,7 +638,7 @@ class ExprMixin:
             if not normal(s):
                 out.append((s, None))
                 continue
-            t = z3.simplify(self.truthy(s, c))
+            t = self.truthy(s, c)
             for truth, cond in ((True, t), (False, z3.Not(t))):
                 if z3.is_false(z3.simplify(cond)):
                     continue
@@ -763,7 +798,7 @@ class ExprMixin:
             if ty.elem is TBottom:
                 return z3.BoolVal(False)
             it = coerce(item, ty.elem, self.classes)
-            return z3.Contains(container.t, z3.Unit(box(it)))
+            return z3.Contains(container.t, sunit(ty.elem, box(it)))
         if isinstance(ty, TMap):
             if ty.k is TBottom:
                 return z3.BoolVal(False)
@@ -813,6 +848,11 @@ class ExprMixin:
                 return Entity('method', attr, base)
             dcls, fty = self.classes.field(ty.cls, attr)
             if dcls is not None:
+                m = api.MODELS.get(dcls)
+                if m is not None and attr in m.optional:
+                    flag = self.read_field(st, base, ty.cls, m.optional[attr], node)
+                    self.oblige(st, flag.t, 'safety', 'has-attr-' + attr, node=node,
+                                info={'claim': 'object has attribute %s (AttributeError)' % attr})
                 return self.read_field(st, base, ty.cls, attr, node)
             dc, mnode = self.classes.find_method(ty.cls, attr)
             if mnode is not None or self.classes.contract_for(ty.cls, attr) is not None:
@@ -929,7 +969,7 @@ class ExprMixin:
                 raise OutsideSubset('index into empty literal')
             self.oblige(st, strops.index_ok(i, z3.Length(base.t)), 'safety', 'seq-index', node=node,
                         info={'claim': 'list index in range (IndexError)'})
-            v = unbox(ty.elem, strops.seq_nth(base.t, i))
+            v = unbox(ty.elem, strops.seq_nth(base.t, i, ty.elem))
             self.assume_ref_closed(st, v)
             return [(st, v)]
         if isinstance(ty, TTuple):
